@@ -60,6 +60,8 @@ def op_term(o):
         return f"[OStart {o[1]}]"
     if k == "RF":
         return f"[OFailStart {o[1]}]"
+    if k == "ST":
+        return f"[OSub {o[1]} (mkC 1 0 1 0)]"
     if k == "D":
         return "[ODrop]"
     if k == "SS":
@@ -73,7 +75,7 @@ def running_from_start(sc):
     late = {o[1] for o in sc["ops"] if o[0] in ("R", "RF", "SS")}
     seen = []
     for o in sc["ops"]:
-        if o[0] in ("S", "K", "H", "G", "O") and o[1] not in late and o[1] not in seen:
+        if o[0] in ("S", "ST", "K", "H", "G", "O") and o[1] not in late and o[1] not in seen:
             seen.append(o[1])
     return seen
 
@@ -176,12 +178,15 @@ def gen_exhaustive_drop(cap, maxlen):
 
 
 def gen_exhaustive_churn(n):
-    """exactly n operations over {publish, subscribe a0, subscribe a1, stop a0, settle}: subscriber
+    """exactly n operations over {publish, subscribe a0, subscribe a1, subscribe a1 through the
+    OutputPortSubscriber trait (once), stop a0, settle}: subscriber
     churn inside one batch (a subscriber found dead while a later subscription is queued behind it)"""
-    alpha = ["p", ("S", 0) + CONV_ALL, ("S", 1) + CONV_ALL, ("K", 0), ("T",)]
+    alpha = ["p", ("S", 0) + CONV_ALL, ("S", 1) + CONV_ALL, ("ST", 1), ("K", 0), ("T",)]
     cases = []
     for seq in itertools.product(alpha, repeat=n):
-        if not any(isinstance(o, tuple) and o[0] == "S" for o in seq) or "p" not in seq:
+        if not any(isinstance(o, tuple) and o[0] in ("S", "ST") for o in seq) or "p" not in seq:
+            continue
+        if sum(1 for o in seq if o == ("ST", 1)) > 1:
             continue
         cases.append({"poison": [], "ops": renumber(list(seq) + [("T",)]), "kind": "exh.churn"})
     return cases
@@ -199,6 +204,7 @@ def gen_random(rng, cap, n):
         unstarted = {a for a in range(n_act) if kind[a] == "park"}   # spawned, still Starting
         unspawned = {a for a in range(n_act) if kind[a] == "self"}
         subscribed = set()
+        trait_subscribed = set()
         convs = {}
         ops = []
         L = rng.choice([6, 10, 16, 24, 40])
@@ -217,6 +223,11 @@ def gen_random(rng, cap, n):
                         unspawned.discard(a)
                         unstarted.add(a)
                         ops.append(("SS", a) + conv)
+                    elif a not in trait_subscribed and rng.random() < 0.15:
+                        # through OutputPortSubscriberTrait (From<u64>): converter is k -> Some(k)
+                        trait_subscribed.add(a)
+                        convs[a][-1] = CONV_ALL
+                        ops.append(("ST", a))
                     else:
                         ops.append(("S", a) + conv)
                     continue
@@ -259,7 +270,7 @@ def gen_random(rng, cap, n):
             # nothing is published or subscribed afterwards
             pubs_at = [i for i, o in enumerate(ops) if o == "p" or (isinstance(o, tuple) and o[0] == "b")]
             d = (rng.choice(pubs_at) + 1) if pubs_at and rng.random() < 0.7 else rng.randrange(1, len(ops))
-            rest = [o for o in ops[d:] if not (o == "p" or (isinstance(o, tuple) and o[0] in ("b", "S", "SS")))]
+            rest = [o for o in ops[d:] if not (o == "p" or (isinstance(o, tuple) and o[0] in ("b", "S", "SS", "ST")))]
             # a self-subscribing actor that was never spawned must not be referenced later
             spawned = {o[1] for o in ops[:d] if isinstance(o, tuple) and o[0] == "SS"}
             never = {a for a in range(n_act) if kind[a] == "self" and a not in spawned}
@@ -349,21 +360,25 @@ def run(chk):
     lines = [sc_line(c) for c in cases]
     impl1 = run_harness(b1, "eng_outport", lines, shards=8)
     impl2 = run_harness(b2, "eng_outport", lines, shards=8)
+    # v2 port created with allow_duplicate_subscription = false (cfg-gated hook constructor)
+    impl3 = run_harness(b2, "eng_outport", lines, shards=8, args="--nodup")
 
     exprs = []
-    for c, i1, i2 in zip(cases, impl1, impl2):
+    for c, i1, i2, i3 in zip(cases, impl1, impl2, impl3):
         t = sc_term(c)
-        exprs.append(f"let sc := {t} in let m1 := X1.result {cap}%nat sc in let m2 := X2.result sc in "
+        exprs.append(f"let sc := {t} in let m1 := X1.result {cap}%nat sc in let m2 := X2.result true sc in "
+                     f"let m3 := X2.result false sc in "
                      f"(m1, check_C16 false {cap}%nat sc {i1}, check_C16 false {cap}%nat sc m1, "
-                     f"m2, check_C16 true {cap}%nat sc {i2}, check_C16 true {cap}%nat sc m2)")
+                     f"m2, check_C16 true {cap}%nat sc {i2}, check_C16 true {cap}%nat sc m2, "
+                     f"m3, check_C16_nodup {cap}%nat sc {i3}, check_C16_nodup {cap}%nat sc m3)")
     model = coq_eval("C16", IMPORTS, exprs)
 
     distinct = set()
     lagged = 0
-    for c, i1, i2, mv in zip(cases, impl1, impl2, model):
+    for c, i1, i2, i3, mv in zip(cases, impl1, impl2, impl3, model):
         t = parse_term(mv)
-        m1, o1, om1, m2, o2, om2 = t[1:]
-        chk.coverage["evaluations"] += 2
+        m1, o1, om1, m2, o2, om2, m3, o3, om3 = t[1:]
+        chk.coverage["evaluations"] += 3
         chk.count("kind." + c["kind"])
         for o in c["ops"]:
             chk.count("op." + o[0])
@@ -379,7 +394,10 @@ def run(chk):
             distinct.add(line)
         if m1 != m2:
             lagged += 1
-        for ver, impl, mres, orc, orc_m in (("default", i1, m1, o1, om1), ("output-port-v2", i2, m2, o2, om2)):
+        if m3 != m2:
+            chk.count("cases_where_a_subscription_was_replaced")
+        for ver, impl, mres, orc, orc_m in (("default", i1, m1, o1, om1), ("output-port-v2", i2, m2, o2, om2),
+                                            ("output-port-v2, allow_duplicate_subscription=false", i3, m3, o3, om3)):
             iv = parse_term(impl)
             desc = (f"build: {ver}   ring size passed to the model: {cap}\n"
                     f"harness line (eng_outport stdin): {line}\n"
@@ -401,13 +419,13 @@ def run(chk):
                                             "model_default": show_term(m1), "impl_v2": i2,
                                             "model_v2": show_term(m2)})
     chk.count("cases_where_default_port_lagged", lagged)
-    chk.coverage["traces_validated_against_impl"] = 2 * len(cases)
+    chk.coverage["traces_validated_against_impl"] = 3 * len(cases)
     chk.coverage["distinct_nontrivial"] = len(distinct)
     chk.coverage["rule"] = ("exhaustive: all operation sequences of length <= %d over {publish, burst of ring+2, subscribe a0, "
                             "subscribe a1 (even only), settle, stop a0, hold a1, give a1 1} followed by a settle, and the same lengths over "
                             "{publish, burst, subscribe parked a2, self-subscribing a3, start a2, start a3, fail start a2, settle, stop a2}, and length <= 5 over {publish, burst, subscribe a0, subscribe a1, settle, drop the port (once, nothing published after), stop a0}, and exactly 5 operations over {publish, subscribe a0, subscribe a1, stop a0, settle}; random: seeded "
                             "scenarios of 6-40 operations over up to 4 receivers (re-subscription, bursts around the ring size, "
-                            "stops, gated handlers, failing handlers, dropping converters, receivers that are still Starting when subscribed / that subscribe from pre_start / whose pre_start fails, the port dropped right after a burst); both builds on every case. "
+                            "stops, gated handlers, failing handlers, dropping converters, receivers that are still Starting when subscribed / that subscribe from pre_start / whose pre_start fails, the port dropped right after a burst, subscription through the OutputPortSubscriber trait); every case on the default build, the v2 build and the v2 build with allow_duplicate_subscription=false (hook constructor). "
                             "non-trivial = some subscription receives at least one item; distinct = distinct scenario lines"
                             % (4 if quick else 5))
     chk.coverage["exhaustive_part"] = "operation sequences of length <= %d over an 8-letter alphabet" % (4 if quick else 5)
@@ -421,5 +439,5 @@ TRUSTED = [
     "tokio broadcast/mpsc and the ractor actor loop are not modelled beyond: ring of `cap` items with Lagged skip-ahead "
     "(cap measured on the real port each run), FIFO mailbox, cast fails once the actor has terminated",
     "deterministic executor: tokio current_thread runtime with paused clock; sleep(1ns) as quiescence barrier",
-    "Rust harness eng_outport (no hook: public API only), lib/common.py term parser and comparison",
+    "Rust harness eng_outport (public API; one cfg-gated hook: v2 constructor with allow_duplicate_subscription=false), lib/common.py term parser and comparison",
 ]
